@@ -25,7 +25,7 @@ func (Driver) Info() core.Info {
 			"with strategies biased towards lists next to tuples and maps next to objects, optionally wrapped in a common or mixed constructor, now and then a random type from the shared generator, and (1 list in 5) a random type of depth 2..4 next to derived variants of itself (leaves swapped, list<->tuple, map<->object, set->list, placeholder inserted); " +
 			"plus every ordered pair of pool types, every ordered triple within the list/tuple and the map/object family (thorough: every ordered triple of the pool and every ordered quadruple within the two families) and a fixed corpus. For each list Unify and UnifyUnsafe are called; every returned non-nil conversion is applied to 7 values of its input type " +
 			"(known, with nulls, with unknown/refined-unknown members, null, unknown, marked). History step per list: ONE slice is then handed to Unify, UnifyUnsafe, UnifyUnsafe, Unify, Unify in a row " +
-			"(every transition between the modes); after each call the slice must still hold the caller's types and the answer must be the one a fresh slice got (the last call of each mode also has its conversions applied). distinct = hash of the type list; non-trivial = unification succeeded in some mode and at least one returned conversion was applied to a value",
+			"(every transition between the modes); after each call the slice must still hold the caller's types and the answer must be the one a fresh slice got (the last call of each mode also has its conversions applied); behind every call every input type must print as it did when the list was built. Plus histories over tuple types that are windows cty.Tuple(full[a:b]) of one longer array of element types: the longer type cty.Tuple(full) is watched as a bystander and is an input of two following calls, all judged against equal types over private arrays. distinct = hash of the type list; non-trivial = unification succeeded in some mode and at least one returned conversion was applied to a value",
 		Assumptions: []string{
 			"a value 'of its input type' is a value whose type conforms to the input type (placeholders instantiated by the value generator)",
 			"'placeholder-free inputs' = no type of the list contains DynamicPseudoType at any depth",
@@ -292,6 +292,14 @@ func (Driver) Run(c *core.Ctx) {
 			c.Count("strategy-nontrivial:" + strat)
 		}
 	}
+	// histories over tuple types that share their element-type array with a longer tuple type (backing.go)
+	for j := int64(0); j < n/24; j++ {
+		idx := 5_000_000_000 + j
+		if !c.Want(idx) {
+			continue
+		}
+		runBacking(c, idx, c.RNG(idx))
+	}
 	runPairs(c, 2_000_000_000)
 	runTriples(c, 3_000_000_000)
 	if !c.Quick() {
@@ -395,7 +403,22 @@ func runQuads(c *core.Ctx, base int64) {
 // checkList runs both modes on one type list. extra[i] are additional fixed
 // values for input i (corpus witnesses); r supplies the generated values.
 func checkList(c *core.Ctx, idx int64, types []cty.Type, extra [][]cty.Value, r *core.Rand) bool {
-	desc := func() string { return typesGo(types) }
+	return checkListW(c, idx, types, nil, extra, r, nil)
+}
+
+// checkListW is checkList for a list whose types may share storage with other
+// types (backing.go): lib is what the library is handed; decl holds the same
+// types as the caller wrote them, each built over storage of its own (nil: lib
+// itself). Everything the oracle says - type model, values "of the input type",
+// witnesses - is about decl; by lists types outside the list whose print must
+// not change either (nil: none).
+func checkListW(c *core.Ctx, idx int64, lib, decl []cty.Type, extra [][]cty.Value, r *core.Rand, by *bystanders) bool {
+	types := decl
+	if types == nil {
+		types = lib
+	}
+	tw := newTypeWatch(lib, types, by)
+	desc := func() string { return typesGo(types) + tw.histText() }
 	c.Begin(idx, desc)
 	nodes := make([]*model.TNode, len(types))
 	for i, t := range types {
@@ -426,7 +449,7 @@ func checkList(c *core.Ctx, idx int64, types []cty.Type, extra [][]cty.Value, r 
 	applied := 0
 	for m := 0; m < 2; m++ {
 		unsafe := m == 1
-		res[m] = callUnify(c, types, unsafe)
+		res[m] = callUnify(c, lib, types, unsafe, tw)
 		if !res[m].ok {
 			if eq && !res[m].panicked {
 				c.Count("clause:all-equal")
@@ -443,7 +466,7 @@ func checkList(c *core.Ctx, idx int64, types []cty.Type, extra [][]cty.Value, r 
 		}
 	}
 	// history step: the caller keeps ONE slice and unifies it again (both modes, every transition)
-	applied += checkSharedSlice(c, types, nodes, vals, res, hasDyn, eq)
+	applied += checkSharedSlice(c, lib, types, nodes, vals, res, hasDyn, eq, tw)
 	c.Distinct(typesText(types), applied > 0)
 	if applied > 0 && c.WantSample() {
 		s := map[string]any{"types": typesText(types)}
@@ -459,10 +482,10 @@ func checkList(c *core.Ctx, idx int64, types []cty.Type, extra [][]cty.Value, r 
 	return applied > 0
 }
 
-func callUnify(c *core.Ctx, types []cty.Type, unsafe bool) uniResult {
+func callUnify(c *core.Ctx, lib, types []cty.Type, unsafe bool, tw *typeWatch) uniResult {
 	site := siteOf(unsafe)
 	var u uniResult
-	in := append([]cty.Type(nil), types...) // the call gets its own slice
+	in := append([]cty.Type(nil), lib...) // the call gets its own slice
 	o := core.Guard(func() {
 		if unsafe {
 			u.ty, u.convs = convert.UnifyUnsafe(in)
@@ -472,6 +495,7 @@ func callUnify(c *core.Ctx, types []cty.Type, unsafe bool) uniResult {
 	})
 	c.Eval(1)
 	c.Count("op:" + site)
+	tw.after(c, site, types)
 	if o.Panicked {
 		c.Violate(site, "panic: "+core.PanicClass(o.PanicMsg), "unify-call "+dynClass(types, 0), typesGo(types), o.PanicMsg+"\n"+o.Stack)
 		return uniResult{panicked: true}
